@@ -37,6 +37,7 @@ type ECase struct {
 	DamageBlk  int         `json:"dmgblk,omitempty"` // >0: checksum clause: after the run, alter one byte of this data block (mod count) at rest
 	DamageOff  int         `json:"dmgoff,omitempty"`
 	Redirected int         `json:"redirected,omitempty"` // fault draws redirected because of an open known finding
+	SlowTable  int         `json:"slowtable,omitempty"`  // >0: every table write takes this many microseconds, so that a background compaction and a transaction's own table flush overlap
 }
 
 type eStats struct {
@@ -236,6 +237,14 @@ func runFaultsOpts(c *ECase, strict, files bool) (st eStats, err error) {
 	o := c.Opts.Build(c.Cmp)
 	fs := vfs.New()
 	dbgFS = fs
+	if c.SlowTable > 0 {
+		d := time.Duration(c.SlowTable) * time.Microsecond
+		fs.Hook = func(kind string, fd storage.FileDesc) {
+			if fd.Type == storage.TypeTable && kind == vfs.OpWrite {
+				time.Sleep(d)
+			}
+		}
+	}
 	ctl := &callCtl{strict: strict, fs: fs, grace: 25 * time.Second, bound: 0}
 	if strict {
 		// the injected failures must be able to outlast a call that gives up by itself, so that
@@ -1002,7 +1011,42 @@ func drawECase(t *rapid.T, excluded map[string]bool) *ECase {
 	c.Faults = rapid.SliceOfN(fg, 1, 3).Draw(t, "faults")
 	// two structured shapes that random mixing rarely reaches
 	switch rapid.SampledFrom([]string{"random", "random", "random", "random", "random", "random", "delwave", "bigjournal", "readfault",
-		"random", "random", "random", "random", "random", "random", "delwave", "bigjournal", "readfault", "random", "trfail"}).Draw(t, "shape") {
+		"random", "random", "random", "random", "random", "delwave", "bigjournal", "readfault", "random", "trfail", "trrace"}).Draw(t, "shape") {
+	case "trrace":
+		// two table builders at once plus an error path: rounds of puts leave table compactions running in the
+		// background (table writes are slow), a transaction opened meanwhile flushes tables of its own, one table
+		// write/sync fails (the compaction output or the transaction's table is dropped and the work retried), then
+		// the transaction commits and more rounds follow: file numbers, table references and the tree must survive it
+		c.Opts.WriteBuffer, c.Opts.TableSize, c.Opts.TotalSize, c.Opts.TotalSizeMult = 256, 512, 1024, 2
+		c.Opts.L0Trigger, c.Opts.L0Slowdown, c.Opts.L0Pause = 2, 6, 8
+		c.Opts.BlockSize = rapid.SampledFrom([]int{64, 128}).Draw(t, "trbs")
+		c.Opts.DisableLargeBatch = false
+		c.SlowTable = rapid.SampledFrom([]int{40, 100, 250}).Draw(t, "trslow")
+		var ops []dbm.Op
+		round := func() {
+			for k := 0; k < nk; k++ {
+				ops = append(ops, dbm.Op{T: "put", K: k, V: gen.VSpec{Len: rapid.SampledFrom([]int{120, 200, 260}).Draw(t, "vl"), Fill: 1}})
+			}
+		}
+		for r := rapid.IntRange(1, 3).Draw(t, "rounds"); r > 0; r-- {
+			round()
+		}
+		ops = append(ops, dbm.Op{T: "tropen"})
+		c.ArmAt = len(ops)
+		for j := rapid.IntRange(2, 8).Draw(t, "trn"); j > 0; j-- {
+			ops = append(ops, dbm.Op{T: "put", K: rapid.IntRange(0, nk-1).Draw(t, "k"), V: gen.VSpec{Len: 168, Fill: j % 2}})
+		}
+		ops = append(ops, dbm.Op{T: rapid.SampledFrom([]string{"trcommit", "trcommit", "trdiscard"}).Draw(t, "trend")})
+		c.HealAt = len(ops)
+		round()
+		ops = append(ops, dbm.Op{T: "compact"})
+		for k := 0; k < nk; k++ {
+			ops = append(ops, dbm.Op{T: "get", K: k})
+		}
+		ops = append(ops, dbm.Op{T: "reopen"})
+		c.Ops = ops
+		c.Faults = []vfs.Fault{{Kind: rapid.SampledFrom([]string{vfs.OpSync, vfs.OpWrite, vfs.OpWrite}).Draw(t, "trk"), FType: "table", Nth: rapid.IntRange(1, 40).Draw(t, "trnth"), Count: 1}}
+		return finishECase(t, c)
 	case "trfail":
 		// a transaction with tables of its own whose Commit meets manifest failures that last
 		// through all its attempts and through the Discard that follows; then ordinary use
@@ -1196,6 +1240,9 @@ func TestC08(t *testing.T) {
 		}
 		if st.scansUnderFaults > 0 {
 			cl = append(cl, "scan-while-faults-armed")
+		}
+		if c.SlowTable > 0 {
+			cl = append(cl, "transaction-flush-overlapping-compaction(trrace)")
 		}
 		if st.damageChecked {
 			cl = append(cl, "checksum-clause")
